@@ -16,6 +16,18 @@ CFG = {
         "Swat4.C16.discover_order",
         "Swat4.C16.submission_order",
         "Swat4.C16.retry_order",
+        "Swat4.C16.report_backed",
+        "Swat4.C16.addServer_backed",
+        "Swat4.C16.probe_backed",
+        "Swat4.C16.probeRetry_backed",
+        "Swat4.C16.probe_complete_backed",
+        "Swat4.C16.runChoices_ok_eq_run",
+        "Swat4.C16.refresh_revive_backed",
+        "Swat4.C16.renew_remove_backed",
+        "Swat4.C16.keyed_preserved",
+        "Swat4.C16.backedB_correct",
+        "Swat4.C16.C16_holder_counterexample",
+        "Swat4.C16.C16_holder_completes",
     ],
     "shards": (1, 16),
     "nontrivial": _nontrivial,
